@@ -83,10 +83,93 @@ func rootDominates(a, b rt.Tmpl) bool {
 	return strict
 }
 
+// crossingRoots: two WebServices whose root paths are drawn from ALL literal/variable shapes of 1-5 segments (sharing the
+// literal wherever both have one), registered in both orders, probed with URLs that both roots match. Whatever ranking
+// the router uses, the answer may not depend on the order (ties of a ranking function are where it would).
+func crossingRoots(ctx *core.Ctx, ti int) {
+	r := ctx.Rand(ti, "crossing-roots")
+	for pair := 0; pair < 12; pair++ {
+		n, m := r.Range(1, 5), r.Range(1, 5)
+		la, lb := r.Intn(1<<uint(n)), r.Intn(1<<uint(m)) // bit i set: segment i is a literal
+		max := n
+		if m > max {
+			max = m
+		}
+		lits := make([]string, max)
+		for i := range lits {
+			lits[i] = r.Pick(rt.Literals)
+		}
+		root := func(k, mask int, tag string) string {
+			var b strings.Builder
+			for i := 0; i < k; i++ {
+				if mask&(1<<uint(i)) != 0 {
+					b.WriteString("/" + lits[i])
+				} else {
+					fmt.Fprintf(&b, "/{%s%d}", tag, i)
+				}
+			}
+			return b.String()
+		}
+		ra, rb := root(n, la, "a"), root(m, lb, "b")
+		if ra == rb || la == 0 && lb == 0 && n == m {
+			continue
+		}
+		if n == m && la == lb {
+			continue // same shape: excluded by the property
+		}
+		build := func(first, second string) *restful.Container {
+			c := restful.NewContainer()
+			c.Router(restful.CurlyRouter{})
+			for _, rp := range []string{first, second} {
+				rp := rp
+				ws := new(restful.WebService).Path(rp)
+				for _, sub := range []string{"", "/{x}", "/{x}/{y}", "/{x}/{y}/{z}"} {
+					sub := sub
+					ws.Route(ws.GET(sub).To(func(req *restful.Request, resp *restful.Response) {
+						resp.WriteHeader(200)
+						fmt.Fprintf(resp, "root=%s route=%s params=%s", rp, sub, sortedParams(req.PathParameters()))
+					}))
+				}
+				c.Add(ws)
+			}
+			return c
+		}
+		c1, c2 := build(ra, rb), build(rb, ra)
+		for q := 0; q < 6; q++ {
+			toks := make([]string, 0, max+3)
+			for i := 0; i < max; i++ {
+				switch {
+				case i < n && la&(1<<uint(i)) != 0, i < m && lb&(1<<uint(i)) != 0:
+					toks = append(toks, lits[i])
+				default:
+					toks = append(toks, r.Pick([]string{"v7", "x", "42", "abc"}))
+				}
+			}
+			for e := 0; e < q%3; e++ {
+				toks = append(toks, r.Pick([]string{"t1", "t2"}))
+			}
+			req := rt.Req{Method: "GET", Path: "/" + strings.Join(toks, "/")}
+			o1, o2 := rt.Run(c1, rt.Dispatch, &req), rt.Run(c2, rt.Dispatch, &req)
+			ctx.Eval(2)
+			ctx.Count("crossing_root_probes", 1)
+			s1 := fmt.Sprintf("%d %s", o1.Status, o1.Rec.Body.String())
+			s2 := fmt.Sprintf("%d %s", o2.Status, o2.Rec.Body.String())
+			if o1.Status == 200 {
+				ctx.Sig(fmt.Sprintf("curly|crossing-roots|%d|%d", n, m))
+			}
+			if s1 != s2 {
+				ctx.Violation(ti, "c03:order:curly:crossing-roots", fmt.Sprintf("roots %q and %q, GET %q: %s when registered in this order, %s in the other order", ra, rb, req.Path, s1, s2),
+					map[string]interface{}{"roots": []string{ra, rb}, "request": req, "first_order": s1, "second_order": s2})
+				return
+			}
+		}
+	}
+}
+
 // c03: best match is never less specific than another eligible route; outcome independent of registration order.
 func c03(ctx *core.Ctx) {
 	quietLogs()
-	ctx.Rule("tables with distinct (method, template) pairs and distinct root shapes (CurlyRouter: variable and nested literal roots; RouterJSR311: literal roots). Oracle 1: the same table built under k registration permutations of services and routes must give every request the same outcome signature. Oracle 2: eligibility of a competing route/root is decided by the real code on a container holding only that route/service; the selected route (root) must not be dominated by an eligible one. Non-trivial = a request with >= 2 eligible routes or >= 2 matching roots; distinct by (router, level, selected shape, competitor shape).")
+	ctx.Rule("tables with distinct (method, template) pairs and distinct root shapes (CurlyRouter: variable and nested literal roots; RouterJSR311: literal roots). Plus pairs of CurlyRouter root paths over all literal/variable shapes of 1-5 segments, registered in both orders and probed with URLs both match. Oracle 1: the same table built under k registration permutations of services and routes must give every request the same outcome signature. Oracle 2: eligibility of a competing route/root is decided by the real code on a container holding only that route/service; the selected route (root) must not be dominated by an eligible one. Non-trivial = a request with >= 2 eligible routes or >= 2 matching roots; distinct by (router, level, selected shape, competitor shape).")
 	ctx.Assume("excluded by the property: roots of the same literal/variable shape, same-method routes differing only in variable names",
 		"root-level choice is made visible by marker routes GET / and GET /{tail:*} added to every service (workload choice, no hook)")
 	tables := ctx.N(3000, 200000)
@@ -100,6 +183,9 @@ func c03(ctx *core.Ctx) {
 		}
 		router := routerOf(ti)
 		r := ctx.Rand(ti, "table")
+		if ti%10 == 3 {
+			crossingRoots(ctx, ti)
+		}
 		o3 := c03GenOpts(router)
 		if m := ti % 40; m == 14 || m == 15 {
 			// table shapes beyond what the small tables reach (long templates, 33-40 services, long media lists, many conditions, 130 routes)
